@@ -37,6 +37,7 @@ import (
 //	'Z' start a goroutine that issues CloseSend concurrently with what follows
 //	'u' send one message that the peer's decoder rejects
 //	'Q' Size goroutines receive until an error, concurrently; wait for all
+//	'v' receive one message through RawRecv and keep the returned slice (checked later: it must not change)
 type Act struct {
 	Op   byte
 	Size int
@@ -115,6 +116,7 @@ type RPCLog struct {
 	HandlerCtx   context.Context
 	HandlerStr   drpc.Stream // handler's stream
 	Stream       drpc.Stream // client stream (streaming RPCs)
+	held         []heldSlice // slices returned by RawRecv that the application still holds
 	Cancel       context.CancelFunc
 }
 
@@ -186,6 +188,24 @@ func (l *RPCLog) CloseSide(side byte) bool {
 	ev := l.begin(side, "close-other-goroutine", 0, 0)
 	l.end(ev, st.Close())
 	return true
+}
+
+type heldSlice struct {
+	side       byte
+	data, copy []byte
+}
+
+// HeldChanged reports the slices obtained from RawRecv whose contents changed afterwards.
+func (l *RPCLog) HeldChanged() []string {
+	l.mu.Lock()
+	defer l.mu.Unlock()
+	var out []string
+	for i, h := range l.held {
+		if string(h.data) != string(h.copy) {
+			out = append(out, fmt.Sprintf("rpc %d (%c side): the %d bytes returned by RawRecv #%d were modified after the call returned (the application still holds the slice)", l.Script.Tag, h.side, len(h.copy), i))
+		}
+	}
+	return out
 }
 
 // HandlerState reports whether the handler started and whether it returned.
@@ -345,6 +365,21 @@ func (x *Exec) runActs(l *RPCLog, side byte, st drpc.Stream, acts []Act, cancel 
 			l.end(ev, st.MsgSend(&m, payload.Enc{}))
 		case 'r':
 			recv()
+		case 'v':
+			ev := l.begin(side, "recv", 0, 0)
+			rr, ok := st.(interface{ RawRecv() ([]byte, error) })
+			if !ok {
+				l.end(ev, fmt.Errorf("stream %T has no RawRecv", st))
+				break
+			}
+			data, err := rr.RawRecv()
+			cp := append([]byte(nil), data...)
+			if err == nil {
+				l.mu.Lock()
+				l.held = append(l.held, heldSlice{side: side, data: data, copy: cp})
+				l.mu.Unlock()
+			}
+			l.endMsg(ev, err, cp)
 		case 'R':
 			for i := 0; i < 100000; i++ {
 				if recv() != nil {
@@ -615,10 +650,10 @@ func validate(s *Script, strict bool) bool {
 		case 'Z':
 			me.half = true
 			me.pc++
-		case 'r', 'R', 'Q':
+		case 'r', 'R', 'Q', 'v':
 			if peer.sent > me.got {
 				me.got++
-				if a.Op == 'r' {
+				if a.Op == 'r' || a.Op == 'v' {
 					me.pc++
 				}
 			} else if peer.half || peer.ended {
